@@ -72,11 +72,19 @@ type blockFacts struct {
 	missed      bool
 	govApplied  bool
 	hugeWithdrawFailed map[Addr]bool // senders of a failed withdrawal of 2^255 or more (an amount no account accepts)
+	dupBytes    bool // the block carries the same tx bytes more than once, or bytes of an earlier block again
 	forgedCheck bool // the block producer served a CheckTx of a tx altered after signing since the previous commit
 }
 
 func (w *World) facts(h int64, block *tmtypes.Block, res *BlockResult) *blockFacts {
 	f := &blockFacts{failedTouch: map[Addr]bool{}, kinds: map[string]bool{}, kindsFailed: map[string]bool{}, hugeWithdrawFailed: map[Addr]bool{}}
+	seenBytes := map[string]bool{}
+	for _, p := range w.curPlans {
+		if p.ReplayOf >= 0 || seenBytes[string(p.Bytes)] {
+			f.dupBytes = true
+		}
+		seenBytes[string(p.Bytes)] = true
+	}
 	for i, p := range w.curPlans {
 		if i >= len(res.DeliverTxs) {
 			break
@@ -130,6 +138,9 @@ func (f *blockFacts) propsFor(kind string, addr *Addr) []string {
 	failedHere := f.hasFailed && (addr == nil || f.failedTouch[*addr])
 	// a tx that does not carry its sender's signature must have no effect, also through the mempool check
 	add("C03", f.forgedCheck)
+	// a refused tx that leaves an effect behind while its nonce stays takes effect again when the same bytes
+	// come again (and they do in this block, or did come before)
+	add("C04", failedHere && f.dupBytes && kind != "nonce")
 	switch kind {
 	case "balance":
 		add("C05", failedHere)
@@ -436,6 +447,7 @@ type rewardDoc struct {
 	Issued    string      `json:"issued"`
 	Withdrawn string      `json:"withdrawn"`
 	Cumulated string      `json:"cumulated"`
+	Slashed   string      `json:"slashed"`
 	Height    interface{} `json:"height"`
 }
 
